@@ -320,6 +320,11 @@ def rule_line_start_indent(rep: Report, repo: Repo, rule: str) -> None:
                         problems = problems + [f"a value is formatted with the specification {t[3]!r}: padding shifts the text away "
                                                f"from the indent (or truncates it)"]
                         break
+                    if isinstance(t, tuple) and len(t) == 4 and t[0] == "call" and isinstance(t[1], tuple) and t[1] and t[1][0] == "attr" \
+                            and t[1][2] in ("rjust", "ljust", "center", "zfill", "expandtabs"):
+                        problems = problems + [f"a value is padded with .{t[1][2]}(): the padding stands between the indent and the text "
+                                               f"(or inside it)"]
+                        break
             rep.check(not problems, rule, where, show(val).replace("\n", "\\n")[:110],
                       f"a line of the element can start without the indent: {problems[0] if problems else ''} - inside a "
                       f"directive that line falls out of the directive body",
